@@ -264,8 +264,6 @@ def run(prog, tier) -> Result:
         [("B", 1), ("V", -1), ("A", 1)], [("2", 1), ("B", 2), ("1/2", 1)], [("C", 1), ("D", 1), ("C", -1)],
         [("V", -1), ("B", 1), ("3", 2)],
     ]
-    if tier == "quick":
-        norm_specs = norm_specs[:18]
     for spec in norm_specs:
         def body(I, c, spec=spec):
             w = World(prog, I, c)
@@ -299,8 +297,6 @@ def run(prog, tier) -> Result:
     # ---- S4 group operations
     op_specs = [([("A", 1), ("2", 1)], [("V", -1), ("B", 1)]), ([("C", 1)], [("D", 1)]), ([("2", 2)], [("3", -1)]),
                 ([("B", 2)], [("A", -1)])]
-    if tier == "quick":
-        op_specs = op_specs[:3]
     for s1, s2 in op_specs:
         for opn, f in (("__mul__", lambda a, b: a * b), ("__truediv__", lambda a, b: a / b)):
             def body(I, c, s1=s1, s2=s2, opn=opn):
@@ -375,8 +371,6 @@ def run(prog, tier) -> Result:
                     if getattr(st, "defect", None):
                         return ("result of the operation is not a well-formed term", st.defect)
                     return None
-                if tier == "quick" and (kind != "int" or spec not in un_specs[:3]):
-                    continue
                 run_scenario(prog, res, "R07.4", f"Term.{opn}", f"({label(spec)}) {opn} {kind}", body_n, judge_n)
     # num_elem / split
     for spec in ([("2", -1)], [("2", 3), ("A", 1)], [("A", 1)], [("1/2", 2), ("V", 1)], []):
